@@ -1,10 +1,12 @@
 #!/bin/bash
 # apply every stored seeded change to /repo in turn, run the quick check of its property (and any extra ids given in
 # tools/seedall.extra as "<seed-dir> <ID>..."), undo it; one line per seed and check in /var/tmp/seedall.log
+# optional arguments: seed directory names (default: all)
 cd /repo && git diff --quiet || { echo "/repo working tree not clean"; exit 2; }
 out=/var/tmp/seedall.log; : > $out
-for d in /verif/seeded/*/; do
-  name=$(basename $d)
+list="$@"; [ -z "$list" ] && list=$(ls /verif/seeded)
+for name in $list; do
+  d=/verif/seeded/$name
   prop=$(python3 -c "import json;print(json.load(open('$d/meta.json'))['property'])")
   extra=$(grep "^$name " /verif/tools/seedall.extra 2>/dev/null | cut -d' ' -f2-)
   if ! git -C /repo apply --check $d/patch.diff 2>/dev/null; then echo "$name: patch does not apply to the current tree" >> $out; continue; fi
